@@ -719,6 +719,20 @@ let do_listen id ins outs =
     else verdict "listen" id "spec:C16" tag (Printf.sprintf "returned=%s after %sms errclass=%s rebind=%s" returned ms cls rebind)
   | _ -> verdict "listen" id "diff" "malformed-line" ""
 
+(* ---- engine resolver, mode lmconc ----  lmc <round> <urlhex> <stamps,...> => <final>
+   the register after a burst of simultaneous responses vs. what every sequential order leaves (C15_lastmod_any_order) *)
+let do_lmc id ins outs =
+  match ins, outs with
+  | [urlh; stamps], [fin] ->
+    let url = bytes_of_token urlh in
+    let ts = List.map (fun s -> z_of_int (int_of_string s)) (String.split_on_char ',' stamps) in
+    let want = int_of_z (lastmod (apply_stamps [] url ts) url) in
+    let tag = Printf.sprintf "burst%d" (List.length ts) in
+    if int_of_string fin = want then verdict "lmc" id "ok" tag ""
+    else verdict "lmc" id "spec:C15,C07" tag
+        (Printf.sprintf "after simultaneous responses announcing %s the profile's last-modified register holds %s; every sequential order of these responses leaves %d" stamps fin want)
+  | _ -> verdict "lmc" id "diff" "malformed-line" ""
+
 (* ---- engine racestress ----  race <i> stress <secs> => none | <frames> <count>
    no model output to compare: a report by the Go race detector whose stacks touch /repo
    code is a failure of C15 on the implementation itself *)
@@ -1098,6 +1112,7 @@ let () =
       | "faulttcp" :: id :: rest -> let (i, o) = split_arrow rest in fault_tcp := true; do_fault id i o; fault_tcp := false
       | "sid" :: id :: rest -> let (i, o) = split_arrow rest in do_sid id i o
       | "e2e" :: id :: rest -> let (i, o) = split_arrow rest in do_e2e id i o
+      | "lmc" :: id :: rest -> let (i, o) = split_arrow rest in do_lmc id i o
       | "cis" :: id :: rest -> let (i, o) = split_arrow rest in do_cis id i o
       | "ci" :: id :: rest -> let (i, o) = split_arrow rest in do_ci id i o
       | "hdr" :: id :: rest -> let (i, o) = split_arrow rest in do_hdr id i o
